@@ -9,7 +9,7 @@
    records of the cache, no route whose origin AS follows from the "local AS" rule.  Clean = FALSE generates everything. *)
 EXTENDS Rpki, RpkiDom, Json
 
-CONSTANTS MaxSteps, Clean, Focus      \* Focus: "wide" | "twin"
+CONSTANTS MaxSteps, Clean, Focus      \* Focus: "wide" | "twin" | "creset"
 
 VARIABLES hist, pool, rsid
 gvars == <<ps, ms, tbl, hist, pool, rsid>>
@@ -29,7 +29,10 @@ WidePool == LET a == RandomElement(AllRecords)
                 e == RandomElement(Records4)
             IN {a, b, c, d, e} \cup (IF Clean THEN {} ELSE {RandomElement({Rec("10.1.0.0/16", 16, LocalAS),
                                                                              Rec("2001:db8::/32", 48, LocalAS)})})
-PickPool == IF Focus = "twin" \/ RandomElement(1..3) = 1 THEN TwinPool ELSE WidePool
+(* "creset" histories: three records, so that a complete reload usually lacks one that was there *)
+ResetPool == TwinPool \cup {RandomElement(AllRecords)}
+PickPool == IF Focus = "creset" THEN ResetPool
+            ELSE IF Focus = "twin" \/ RandomElement(1..3) = 1 THEN TwinPool ELSE WidePool
 
 GenInit == /\ Init
            /\ hist = <<>>
@@ -74,7 +77,7 @@ GEod(c) == /\ InResp(c)
                 Eod(c, rsid[c], sn) /\ Log([ev |-> "Eod", c |-> c, sid |-> rsid[c], sn |-> sn])
            /\ Keep
 GNotify(c) == /\ IdleConn(c)
-              /\ \E sn \in {IF Focus = "twin" /\ Dice(7) THEN ms[c].serial + 1 ELSE RandomElement(0..4)} :
+              /\ \E sn \in {IF Focus # "wide" /\ Dice(7) THEN ms[c].serial + 1 ELSE RandomElement(0..4)} :
                    Notify(c, sn, QNotify(ms[c], sn)) /\ Log([ev |-> "Notify", c |-> c, sid |-> ps[c].psid, sn |-> sn])
               /\ Keep
 GCacheReset(c) == /\ IdleConn(c) /\ (IF ps[c].cq = <<>> THEN TRUE ELSE Head(ps[c].cq) = "serial")
@@ -86,9 +89,16 @@ GInject == /\ \E c \in Caches : ms[c].cfg
            /\ Keep
 
 Busy(c) == ms[c].cfg /\ (ps[c].phase = "resp" \/ ps[c].cq # <<>>)
+(* the cache cannot provide the delta (RFC 8210 5.9 / 8.3): it answers the oldest unanswered query,
+   a Serial Query, with Cache Reset; the client falls back to a Reset Query in the same session *)
+GNoDelta(c) == /\ CanResp(c) /\ Head(ps[c].cq) = "serial" /\ GCacheReset(c)
+NoDeltaDice == IF Focus = "creset" THEN 6 ELSE IF Focus = "twin" THEN 2 ELSE 3
 
 (* Focus = "twin": two caches, one bucket, at most two records: full and incremental responses
-   with repeated announcements and withdrawals, and now and then a session / serial reset *)
+   with repeated announcements and withdrawals, and now and then a session / serial reset.
+   Focus = "creset": the same skeleton over three records, where a Serial Query is answered with
+   Cache Reset more often than with the delta, at whatever point of the history it is sent, and the
+   reload that follows keeps the session id half of the time; serial-notify increments go on after it *)
 TwinNext ==
   /\ Len(hist) < MaxSteps
   /\ \/ \E c \in Caches :
@@ -99,6 +109,7 @@ TwinNext ==
           \/ (Dice(5) /\ GWd(c))
           \/ (Dice(5) /\ GEod(c))
           \/ (~Busy(c) /\ GNotify(c))
+          \/ (Dice(NoDeltaDice) /\ GNoDelta(c))
           \/ (~Busy(c) /\ Dice(1) /\ (GCacheReset(c) \/ GBounce(c) \/ GReset(c) \/ GSoft(c) \/ GEnable(c) \/ GDel(c)))
           \/ (Busy(c) /\ Dice(1) /\ Dice(3) /\ (GBounce(c) \/ GSoft(c) \/ GEnable(c)))
      \/ (Dice(2) /\ GInject)
@@ -117,6 +128,7 @@ WideNext ==
           \* the cache is quiet: notifications, cache resets, errors, connection loss, management
           \/ (~Busy(c) /\ GNotify(c))
           \/ (~Busy(c) /\ Dice(5) /\ GCacheReset(c))
+          \/ (Dice(NoDeltaDice) /\ GNoDelta(c))
           \/ (~Busy(c) /\ Dice(2) /\ GError(c))
           \/ (~Busy(c) /\ Dice(5) /\ GBounce(c))
           \/ (~Busy(c) /\ Dice(5) /\ GReset(c))
@@ -126,7 +138,7 @@ WideNext ==
           \/ (Busy(c) /\ Dice(1) /\ (GBounce(c) \/ GReset(c) \/ GSoft(c) \/ GEnable(c) \/ GCacheReset(c)))
      \/ (Dice(6) /\ GInject)
 
-GenNext == IF Focus = "twin" THEN TwinNext ELSE WideNext
+GenNext == IF Focus = "wide" THEN WideNext ELSE TwinNext
 GenSpec == GenInit /\ [][GenNext]_gvars
 
 Emit == Len(hist) = MaxSteps =>
